@@ -149,6 +149,7 @@ func (o *vzOracles) onFinalize(nd *vzNode, fr tmdriver.FinalizeBlockRequest) {
 	h := fr.Header.Height
 	hash := string(fr.Header.Hash)
 	o.w.s.Logf("%s FINALIZE %d %x", nd.ident(), h, trunc(hash))
+	o.w.progressAt = o.w.s.Steps + 1
 	o.w.mu.Lock()
 	nd.fin[h] = hash
 	seq := nd.finSeq
@@ -194,7 +195,11 @@ func (o *vzOracles) onSign(nd *vzNode, kind string, h uint64, r uint32, content 
 	o.w.mu.Unlock()
 	o.w.s.Logf("%s signs %s %d/%d", nd.ident(), kind, h, r)
 	if n > 1 && !nd.byz {
-		o.violate("C02", "double-sign/"+kind, "%s (incarnation %d) signed %d different %s messages for height %d round %d", nd.ident(), nd.inc, n, kind, h, r)
+		when := "same-process"
+		if nd.inc > 1 {
+			when = "after-restart"
+		}
+		o.violate("C02", "double-sign/"+kind+"/"+when, "%s (incarnation %d) signed %d different %s messages for height %d round %d", nd.ident(), nd.inc, n, kind, h, r)
 	}
 }
 
@@ -217,7 +222,10 @@ func (o *vzOracles) afterStep() {
 		if e.sm != nil {
 			select {
 			case <-e.sm.VzDone():
-				o.violate("C09", "statemachine-exited", "%s: the state machine goroutine has exited while the engine is running (it no longer serves the mirror); node position %d/%d", nd.ident(), nd.curH, nd.curR)
+				w.mu.Lock()
+				cause := w.lastErr[nd.ident()]
+				w.mu.Unlock()
+				o.violate("C09", "statemachine-exited/"+vzSkeleton(cause), "%s (incarnation %d): the state machine goroutine has exited while the engine is running (it no longer serves the mirror); node position %d/%d; last error logged: %q", nd.ident(), nd.inc, nd.curH, nd.curR, cause)
 			default:
 			}
 		}
@@ -598,6 +606,28 @@ func (o *vzOracles) certPower(h uint64, r uint32, hash string, sigs []gcrypto.Sp
 		power.Add(power, new(big.Int).SetUint64(vs.Validators[idx].Power))
 	}
 	return power, total, true
+}
+
+// vzSkeleton strips numbers and hex from a message so that it can be part of a class key.
+func vzSkeleton(s string) string {
+	var b strings.Builder
+	prevN := false
+	for _, r := range s {
+		if (r >= '0' && r <= '9') || (prevN && ((r >= 'a' && r <= 'f') || (r >= 'A' && r <= 'F'))) {
+			if !prevN {
+				b.WriteByte('N')
+			}
+			prevN = true
+			continue
+		}
+		prevN = false
+		b.WriteRune(r)
+	}
+	out := b.String()
+	if len(out) > 120 {
+		out = out[:120]
+	}
+	return out
 }
 
 func isQuorum(power, total *big.Int) bool {
